@@ -46,6 +46,12 @@ Theorems (coq/theories/C02/Property.v, all "Closed under the global context"; ck
                             AttributeProto (all kinds, references, subgraphs of any depth, value sub-message present
                             but empty or absent) and on a FunctionProto (serialize_function(create_value_info=True), no
                             model IR version); both are also message kinds of the correspondence ("attr", "function")
+  C02_function_experimental_ir9   IR < 10, function level: function values typed through main-graph entries
+                            "{domain}::{function}/{value}" (prefix matching, 348a4f1): deserialize_function + the
+                            experimental lookup (apply_exp_fn) + serialize_function_into(create_value_info=False) give
+                            back the function and exactly the informative entries, qualified, once each (ProofsG21).
+                            wf_model still excludes the format below IR 10 (C02_roundtrip does not cover it at model
+                            level; the stream "experimental-function-value-info-ir<10" + oracle do).
   C02_function_roundtrip    functions: overloads, attribute parameters, reference attributes, IR-10 value_info
                             incl. function inputs, nothing moved to the main graph for a well-formed function
   C02_graph_roundtrip / C02_graph_scoping   graphs at every nesting depth and in any scope stack: scoped name tables
@@ -95,7 +101,10 @@ Findings on the tree as first read (all reproduced on the real code; witnesses i
   missed; now the stream "experimental-function-value-info-ir<10" (functions in domains "", "ai.onnx", "pkg" whose
   values are typed by main-graph entries "{domain}::{function}/{value}") is compared model-vs-implementation AND judged
   by the oracle, which treats those entries as referenced value-info that must round-trip.  These protos are outside
-  wf (C02_roundtrip does not cover the IR < 10 experimental format; the model describes it and the tie checks it).
+  wf_model (C02_roundtrip does not cover the IR < 10 experimental format at model level; the function-level behaviour
+  is theorem C02_function_experimental_ir9, the model describes the rest and the tie checks it).  348a4f1 (prefix
+  matching against the existing functions, all overloads) is followed by model (strip_prefix/exp_entries), oracle
+  and generator (separators inside domain / function names).
   Upstream fixes 5e4600e (nodes of nested graphs follow the model's IR-version gate: ser_graph passes irv down,
   wf_graph's allow_dev now covers nested graphs) and 3a09e57 (a repeated initializer name: only the last tensor is
   used — `last_only`, after all tensors are deserialized) landed after the proof was finished: model, wf, generator
